@@ -1655,6 +1655,10 @@ class FortranReaderBase:
             )
             logging.getLogger(__name__).error(message)
         line_content = "".join(lines).strip()
+        if name is None and len(lines) > 1 and not start_index:
+            # The first physical line was continued before the ':' of a
+            # construct name, so look for the name in the joined line.
+            name, line_content = extract_construct_name(line_content)
         if line_content:
             return self.line_item(line_content, startlineno, endlineno, label, name)
         if label is not None:
